@@ -368,12 +368,18 @@ func init() {
 				return "not-compiled"
 			}
 			var out []string
+			// all three entries are generated first and printed afterwards: generating one mapping of a type
+			// must not disturb another one of the same type (entries are per atlas)
+			var es [3]*atlas.AtlasEntry
+			var ps [3]bool
 			for mode := 0; mode < 3; mode++ {
-				e, p := agAutogen(f.all[0], mode)
-				if p {
+				es[mode], ps[mode] = agAutogen(f.all[0], mode)
+			}
+			for mode := 0; mode < 3; mode++ {
+				if ps[mode] {
 					out = append(out, fmt.Sprintf("m%d=panic", mode))
 				} else {
-					out = append(out, fmt.Sprintf("m%d=%s", mode, f.printFields(e)))
+					out = append(out, fmt.Sprintf("m%d=%s", mode, f.printFields(es[mode])))
 				}
 			}
 			var ents []*atlas.AtlasEntry
